@@ -103,7 +103,7 @@ func c01Program(c c01Case, hook string, cns string) c01Prog {
 			status["names"] = strings.Join(kit.SortedKeys(observed), ",")
 		}
 		if c.TwoKinds && hook != "static0" {
-			out = append(out, c01Child(c, kit.Widget, cns, "w", "1"))
+			out = append(out, c01Child(c, kit.CoreWidget, cns, "a", "1"))
 		}
 		if c.GenSel {
 			// a hook that echoes the labels of what it observed returns the generated label itself
@@ -142,7 +142,7 @@ func c01Run(c c01Case) []mc.Finding {
 	}
 	kinds := []*sim.Kind{kit.Leaf}
 	if c.TwoKinds {
-		kinds = append(kinds, kit.Widget)
+		kinds = append(kinds, kit.CoreWidget)
 	}
 	o := ccOpt{parent: pk, children: kinds, generateSel: c.GenSel, finalize: c.Finalize, ssa: c.SSA}
 	if c.Method != "<unset>" {
@@ -216,7 +216,7 @@ func c01Run(c c01Case) []mc.Finding {
 		}
 	}
 	if c.TwoKinds {
-		w.Sim.Remove(kit.Widget, cns, "w")
+		w.Sim.Remove(kit.CoreWidget, cns, "a")
 	}
 	if c.Stale {
 		w.Sim.Seed(kit.Labels(kit.Owners(kit.Obj(kit.Leaf, cns, "zz"), kit.OwnerRef(pk, "p", puid, true)), matchK, matchV))
